@@ -63,28 +63,29 @@ Lemma verify_outputs_commits dom dom' : forall outs k k' cs cs',
   verify_outputs dom outs k = OVal cs -> verify_outputs dom' outs k' = OVal cs' -> cs = cs'.
 Proof.
   induction outs as [|o outs IH]; intros k k' cs cs'; cbn [verify_outputs]. - now intros [= <-] [= <-].
-  - destruct (verify_output dom k o) as [c| |] eqn:V; cbn [obind]; try discriminate.
+  - destruct (verify_output_step dom k o) as [c| |] eqn:V; cbn [obind]; try discriminate.
     destruct (verify_outputs dom outs (S k)) as [r| |] eqn:R; cbn [obind]; try discriminate. intros [= <-].
-    destruct (verify_output dom' k' o) as [c'| |] eqn:V'; cbn [obind]; try discriminate.
+    destruct (verify_output_step dom' k' o) as [c'| |] eqn:V'; cbn [obind]; try discriminate.
     destruct (verify_outputs dom' outs (S k')) as [r'| |] eqn:R'; cbn [obind]; try discriminate. intros [= <-].
-    destruct (verify_output_inv _ _ _ _ V) as (G & _). destruct (verify_output_inv _ _ _ _ V') as (G' & _).
-    rewrite G in G'. injection G' as <-. f_equal. eapply IH; eassumption.
+    f_equal; [|eapply IH; eassumption].
+    destruct (step_inv _ _ _ _ V) as [[S1 ->]|(S1 & c1 & -> & V1)], (step_inv _ _ _ _ V') as [[S2 ->]|(S2 & c2 & -> & V2)]; try congruence.
+    destruct (verify_output_inv _ _ _ _ V1) as (G & _). destruct (verify_output_inv _ _ _ _ V2) as (G' & _). congruence.
 Qed.
 (* same outputs except position j *)
 Lemma verify_outputs_replace dom outs outs' j o o' cs cs' c' :
   verify_outputs dom outs 0 = OVal cs -> verify_outputs dom outs' 0 = OVal cs' ->
-  nth_error outs j = Some o -> outs' = set_nth outs j o' -> verify_output dom j o' = OVal c' ->
-  exists c, verify_output dom j o = OVal c /\ cs = firstn j cs ++ c :: skipn (S j) cs /\ cs' = firstn j cs ++ c' :: skipn (S j) cs.
+  nth_error outs j = Some o -> outs' = set_nth outs j o' -> verify_output_step dom j o' = OVal c' ->
+  exists c, verify_output_step dom j o = OVal c /\ cs = firstn j cs ++ c :: skipn (S j) cs /\ cs' = firstn j cs ++ c' :: skipn (S j) cs.
 Proof.
   intros V V' NE -> Vo'. destruct (verify_outputs_nth _ _ _ _ V) as [L N]. destruct (verify_outputs_nth _ _ _ _ V') as [L' N'].
   destruct (N j o NE) as (c & Vo & NC). exists c. split; [exact Vo|].
   destruct (set_nth_split cs j c c' NC) as (E1 & E2 & _). split; [exact E1|]. rewrite <- E2.
-  apply nth_ext with (d := gzero) (d' := gzero). { rewrite set_nth_length, L', set_nth_length. now rewrite L. }
+  apply nth_ext with (d := None) (d' := None). { rewrite set_nth_length, L', set_nth_length. now rewrite L. }
   intros i Hi. rewrite L', set_nth_length in Hi.
   destruct (nth_error outs i) as [oi|] eqn:NI; [|apply nth_error_None in NI; lia].
   destruct (Nat.eq_dec j i) as [<-|NJ].
   - destruct (N' j o' (nth_set_eq _ _ _ _ NE)) as (c2 & V2 & NC2). cbn [Nat.add] in V2. rewrite Vo' in V2. injection V2 as <-.
-    rewrite (nth_error_nth _ _ _ NC2), (nth_error_nth _ _ gzero (nth_set_eq _ _ _ c' NC)). reflexivity.
+    rewrite (nth_error_nth _ _ _ NC2), (nth_error_nth _ _ None (nth_set_eq _ _ _ c' NC)). reflexivity.
   - assert (NI' : nth_error (set_nth outs j o') i = Some oi) by (rewrite nth_set_neq by exact NJ; exact NI).
     destruct (N' i oi NI') as (c2 & V2 & NC2). destruct (N i oi NI) as (c1 & V1 & NC1). cbn [Nat.add] in *. rewrite V1 in V2. injection V2 as <-.
     rewrite (nth_error_nth _ _ _ NC2). assert (X : nth_error (set_nth cs j c') i = Some c1) by (rewrite nth_set_neq by exact NJ; exact NC1).
@@ -94,18 +95,21 @@ Qed.
 (* ---- master lemmas for tampers of one output *)
 Lemma out_reject T spent outs' j o o' :
   verify_tx_amt_proofs T spent = OVal tt -> nth_error (t_out T) j = Some o -> nth_error outs' j = Some o' ->
+  skipped o = false -> skipped o' = false ->
   (forall dom c c', verify_output dom j o = OVal c -> verify_output dom j o' = OVal c' -> False) ->
   verify_tx_amt_proofs (mkTx (t_in T) outs') spent <> OVal tt.
 Proof.
-  intros V NE NE' K V'. apply verify_ok_inv in V as (L & dom & coms & ocoms & VI & VO & B).
+  intros V NE NE' SK SK' K V'. apply verify_ok_inv in V as (L & dom & coms & ocoms & VI & VO & B).
   apply verify_ok_inv in V' as (L' & dom' & coms' & ocoms' & VI' & VO' & B'). cbn [t_in t_out] in *.
   rewrite VI in VI'. injection VI' as <- <-.
   destruct (verify_outputs_nth _ _ _ _ VO) as [_ N]. destruct (verify_outputs_nth _ _ _ _ VO') as [_ N'].
-  destruct (N j o NE) as (c & Vc & _). destruct (N' j o' NE') as (c' & Vc' & _). exact (K dom c c' Vc Vc').
+  destruct (N j o NE) as (c & Vc & _). destruct (N' j o' NE') as (c' & Vc' & _).
+  destruct (step_inv _ _ _ _ Vc) as [[S1 _]|(_ & c1 & _ & V1)]; [congruence|].
+  destruct (step_inv _ _ _ _ Vc') as [[S2 _]|(_ & c2 & _ & V2)]; [congruence|]. exact (K dom c1 c2 V1 V2).
 Qed.
 Lemma out_reject_balance T spent ss j o o' :
   verify_tx_amt_proofs T spent = OVal tt -> opens (t_in T) spent ss -> nth_error (t_out T) j = Some o ->
-  (forall dom c c', Forall opened_gen dom -> verify_output dom j o = OVal c -> verify_output dom j o' = OVal c' -> ~ geq c c') ->
+  (forall dom c c', Forall opened_gen dom -> verify_output_step dom j o = OVal c -> verify_output_step dom j o' = OVal c' -> ~ geq (oc2g c) (oc2g c')) ->
   verify_tx_amt_proofs (mkTx (t_in T) (set_nth (t_out T) j o')) spent <> OVal tt.
 Proof.
   intros V OP NE K V'. apply verify_ok_inv in V as (L & dom & coms & ocoms & VI & VO & B).
@@ -114,7 +118,8 @@ Proof.
   destruct (verify_inputs_ok _ _ _ OP 0%nat) as (dom2 & coms2 & VI2 & D & _). rewrite VI in VI2. injection VI2 as <- <-.
   destruct (verify_outputs_nth _ _ _ _ VO') as [_ N']. destruct (N' j o' (nth_set_eq _ _ _ o' NE)) as (c' & Vc' & _). cbn [Nat.add] in Vc'.
   destruct (verify_outputs_replace dom _ _ j o o' _ _ c' VO VO' NE eq_refl Vc') as (c & Vc & E & E').
-  rewrite E in B. rewrite E' in B'. apply (K dom c c' (dom_opened _ _ D) Vc Vc'). exact (balance_mid _ _ _ _ _ B B').
+  rewrite E in B. rewrite E' in B'. rewrite map_app in B, B'. cbn [map] in B, B'.
+  apply (K dom c c' (dom_opened _ _ D) Vc Vc'). exact (balance_mid _ _ _ _ _ B B').
 Qed.
 
 (* value / asset comparison *)
@@ -244,6 +249,28 @@ Section OneOutput.
   Qed.
 End OneOutput.
 
+(* ---- the same two balance facts for one ITERATION (an explicit zero amount on an unspendable script is skipped and contributes nothing) *)
+Lemma explicit_commit_nonzero dom k o v c : Forall opened_gen dom -> o_value o = VExp v -> 0 <= v < qn ->
+  verify_output dom k o = OVal c -> ~ geq gzero c.
+Proof.
+  intros D OV R V E. destruct (verify_output_inv _ _ _ _ V) as (GV & _). unfold get_value_commit in GV. rewrite OV in GV.
+  destruct (Z.eqb_spec v 0) as [Z0|NZ]; [destruct (is_provably_unspendable (o_script o)); discriminate|].
+  destruct (get_asset_gen o) as [g| |] eqn:GA; cbn [obind] in GV; try discriminate.
+  destruct (out_gen_opened _ _ _ _ D V g GA) as (a & abf & G). unfold pedersen_unblinded in GV. destruct (geqb (commit v g 0) gzero); [discriminate|].
+  injection GV as <-. specialize (E (kH a)). rewrite coeff_zero, coeff_commit, G, coeff_asset_gen_H, N.eqb_refl, kH_not_G in E.
+  unfold zadd, zmul in E. rewrite Z.mul_1_r, Z.add_0_r, zn_idem, Z.mod_small in E by lia. lia.
+Qed.
+Lemma step_explicit_amount dom k o v v' oc oc' : Forall opened_gen dom -> o_value o = VExp v -> 0 <= v < qn -> 0 <= v' < qn -> v <> v' ->
+  verify_output_step dom k o = OVal oc -> verify_output_step dom k (set_value (VExp v') o) = OVal oc' -> ~ geq (oc2g oc) (oc2g oc').
+Proof.
+  intros D OV R R' NE S S'.
+  destruct (step_inv _ _ _ _ S) as [[SK ->]|(SK & c & -> & V)], (step_inv _ _ _ _ S') as [[SK' ->]|(SK' & c' & -> & V')]; cbn [oc2g].
+  - apply skipped_spec in SK as [E _]. apply skipped_spec in SK' as [E' _]. cbn in E'. congruence.
+  - apply (explicit_commit_nonzero dom k (set_value (VExp v') o) v' c' D); [reflexivity|exact R'|exact V'].
+  - intro E. apply (explicit_commit_nonzero dom k o v c D OV R V). now symmetry.
+  - exact (reject_explicit_amount dom k o c V v v' c' D OV R R' NE V').
+Qed.
+
 (* ---- the input loop, split at one position *)
 Lemma verify_inputs_index : forall ins sp k k' r, verify_inputs ins sp k = OVal r -> verify_inputs ins sp k' = OVal r.
 Proof.
@@ -286,7 +313,7 @@ Lemma accepted_at_input T spent i inp u :
   exists d1 c1 g c idom icom d2 c2 cs,
     verify_inputs (firstn i (t_in T)) (firstn i spent) 0 = OVal (d1, c1) /\ get_asset_gen u = OVal g /\ get_value_commit u = OVal c
     /\ issuance_commits inp = OVal (idom, icom) /\ verify_inputs (skipn (S i) (t_in T)) (skipn (S i) spent) 0 = OVal (d2, c2)
-    /\ verify_outputs (d1 ++ g :: idom ++ d2) (t_out T) 0 = OVal cs /\ geq (gsum cs) (gsum (c1 ++ c :: icom ++ c2)).
+    /\ verify_outputs (d1 ++ g :: idom ++ d2) (t_out T) 0 = OVal cs /\ geq (gsum (map oc2g cs)) (gsum (c1 ++ c :: icom ++ c2)).
 Proof.
   intros V NI NS. apply verify_ok_inv in V as (L & dom & coms & ocoms & VI & VO & B).
   destruct (split_at _ _ _ NI) as (EI & LI). destruct (split_at _ _ _ NS) as (ES & LS). rewrite EI, ES in VI.
@@ -366,10 +393,13 @@ Section InputTampers.
       - injection GA as <-. injection GA' as <-. now apply asset_eqb_conf. }
     apply orb_true_iff in AP as [HC|EX].
     - (* some output carries a surjection proof: it is bound to the old domain *)
-      unfold has_conf_asset_output in HC. apply existsb_exists in HC as (o & I & OA). destruct (o_asset o) as [| |go] eqn:OAo; try discriminate.
+      unfold has_conf_asset_output in HC. apply existsb_exists in HC as (o & I & OA). apply andb_true_iff in OA as [LV OA].
+      unfold live in LV. apply negb_true_iff in LV. destruct (o_asset o) as [| |go] eqn:OAo; try discriminate.
       apply In_nth_error in I as (j & NJ).
       destruct (verify_outputs_nth _ _ _ _ VO) as [_ N]. destruct (verify_outputs_nth _ _ _ _ VO') as [_ N'].
-      destruct (N j o NJ) as (co & Vo & _). destruct (N' j o NJ) as (co' & Vo' & _).
+      destruct (N j o NJ) as (co0 & Vo0 & _). destruct (N' j o NJ) as (co0' & Vo0' & _).
+      destruct (step_inv _ _ _ _ Vo0) as [[S1 _]|(_ & co & _ & Vo)]; [congruence|].
+      destruct (step_inv _ _ _ _ Vo0') as [[S2 _]|(_ & co' & _ & Vo')]; [congruence|].
       destruct (verify_output_inv _ _ _ _ Vo) as (_ & _ & SP). destruct (verify_output_inv _ _ _ _ Vo') as (_ & _ & SP').
       destruct (SP go OAo) as (sp & S & SV). destruct (SP' go OAo) as (sp' & S2 & SV'). rewrite S in S2. injection S2 as <-.
       destruct (sp_verify_sound _ _ _ SV) as (_ & _ & _ & _ & _ & D). destruct (sp_verify_sound _ _ _ SV') as (_ & _ & _ & _ & _ & D').
@@ -448,7 +478,7 @@ Section IssuanceTamper.
     - destruct (is_amount (in_iss inp)) as [|v|] eqn:EA; try discriminate. cbn [ipd ipc app] in *.
       rewrite VO in VO'. injection VO' as <-.
       assert (E : geq (commit v (gH (is_asset (in_iss inp))) 0) (commit x (gH (is_asset (in_iss inp))) 0)).
-      { apply (balance_mid (gsum cs) (c1 ++ [c]) _ _ (ipc (is_token (in_iss inp)) (is_keys (in_iss inp)) ++ c2)).
+      { apply (balance_mid (gsum (map oc2g cs)) (c1 ++ [c]) _ _ (ipc (is_token (in_iss inp)) (is_keys (in_iss inp)) ++ c2)).
         - rewrite <- app_assoc. exact B. - rewrite <- app_assoc. exact B'. }
       destruct AK as [?|(v0 & E0 & R0)]; [discriminate|]. injection E0 as <-.
       specialize (E (kH (is_asset (in_iss inp)))). rewrite !coeff_commit, !coeff_H, N.eqb_refl, kH_not_G in E.
@@ -456,7 +486,7 @@ Section IssuanceTamper.
     - destruct (is_keys (in_iss inp)) as [|v|] eqn:EK; try discriminate. cbn [ipd ipc app] in *.
       rewrite VO in VO'. injection VO' as <-.
       assert (E : geq (commit v (gH (is_token (in_iss inp))) 0) (commit x (gH (is_token (in_iss inp))) 0)).
-      { apply (balance_mid (gsum cs) (c1 ++ c :: ipc (is_asset (in_iss inp)) (is_amount (in_iss inp))) _ _ c2).
+      { apply (balance_mid (gsum (map oc2g cs)) (c1 ++ c :: ipc (is_asset (in_iss inp)) (is_amount (in_iss inp))) _ _ c2).
         - rewrite <- app_assoc. cbn [app]. rewrite <- app_assoc in B. exact B. - rewrite <- app_assoc. cbn [app]. rewrite <- app_assoc in B'. exact B'. }
       destruct KK as [?|(v0 & E0 & R0)]; [discriminate|]. injection E0 as <-.
       specialize (E (kH (is_token (in_iss inp)))). rewrite !coeff_commit, !coeff_H, N.eqb_refl, kH_not_G in E.
@@ -467,8 +497,8 @@ End IssuanceTamper.
 (* ================================================================== the theorem *)
 Lemma out_reject_gen T spent outs' j o' :
   verify_tx_amt_proofs T spent = OVal tt -> nth_error outs' j = Some o' ->
-  (forall dom, (forall i oi, nth_error (t_out T) i = Some oi -> exists ci, verify_output dom i oi = OVal ci) ->
-               forall c', verify_output dom j o' = OVal c' -> False) ->
+  (forall dom, (forall i oi, nth_error (t_out T) i = Some oi -> exists ci, verify_output_step dom i oi = OVal ci) ->
+               forall c', verify_output_step dom j o' = OVal c' -> False) ->
   verify_tx_amt_proofs (mkTx (t_in T) outs') spent <> OVal tt.
 Proof.
   intros V NE' K V'. apply verify_ok_inv in V as (L & dom & coms & ocoms & VI & VO & B).
@@ -502,69 +532,86 @@ Proof.
     rewrite (upd_some _ _ _ _ NE). destruct (o_value o) as [|v0|comm] eqn:OV, v as [|w|comm']; try discriminate.
     + cbn in CH, U. unfold u64b in U. apply andb_true_iff in U as [U1 U2]. apply Z.leb_le in U1. apply Z.ltb_lt in U2.
       apply (out_reject_balance T spent ss j o _ V OP NE). intros dom c c' D Vc Vc'.
-      apply (reject_explicit_amount dom j o c Vc v0 w c' D OV (UO _ _ _ NE OV)); [lia| |exact Vc']. apply negb_true_iff, Z.eqb_neq in CH. exact CH.
-    + apply (out_reject T spent _ j o _ V NE (nth_set_eq _ _ _ _ NE)). intros dom c c' Vc Vc'.
+      apply (step_explicit_amount dom j o v0 w c c' D OV (UO _ _ _ NE OV)); [lia| |exact Vc|exact Vc']. apply negb_true_iff, Z.eqb_neq in CH. exact CH.
+    + apply (out_reject T spent _ j o _ V NE (nth_set_eq _ _ _ _ NE) (skipped_conf o comm OV) (skipped_conf (set_value (VConf comm') o) comm' eq_refl)). intros dom c c' Vc Vc'.
       apply (reject_value_commit dom j o c Vc comm comm' c' OV); [|exact Vc']. apply value_eqb_conf. now apply negb_true_iff.
   - (* TOutAsset *)
     apply out_at_inv in AP as (o & NE & KD). apply out_at_inv in CH as (o2 & NE2 & CH). rewrite NE in NE2. injection NE2 as <-.
+    apply andb_true_iff in KD as [LV KD]. unfold live in LV. apply negb_true_iff in LV.
+    assert (LV' : forall a', skipped (set_asset a' o) = false) by (intro a'; rewrite (skipped_same o (set_asset a' o) eq_refl eq_refl); exact LV).
     rewrite (upd_some _ _ _ _ NE). apply negb_true_iff in CH. destruct (o_asset o) as [|a0|g] eqn:OA, a as [|a1|g']; try discriminate.
     + cbn in CH. apply N.eqb_neq in CH. destruct (o_value o) as [|v0|comm] eqn:OV.
-      * apply (out_reject T spent _ j o _ V NE (nth_set_eq _ _ _ _ NE)). intros dom c c' Vc _.
+      * apply (out_reject T spent _ j o _ V NE (nth_set_eq _ _ _ _ NE) LV (LV' _)). intros dom c c' Vc _.
         destruct (verify_output_inv _ _ _ _ Vc) as (GV & _). unfold get_value_commit in GV. rewrite OV in GV. discriminate.
-      * apply (out_reject_balance T spent ss j o _ V OP NE). intros dom c c' D Vc Vc'.
-        exact (reject_explicit_asset dom j o c Vc a0 a1 v0 c' OA OV (UO _ _ _ NE OV) CH Vc').
-      * apply (out_reject T spent _ j o _ V NE (nth_set_eq _ _ _ _ NE)). intros dom c c' Vc Vc'.
+      * apply (out_reject_balance T spent ss j o _ V OP NE). intros dom c c' D Sc Sc'.
+        destruct (step_inv _ _ _ _ Sc) as [[S1 _]|(_ & c1 & -> & Vc)]; [congruence|].
+        destruct (step_inv _ _ _ _ Sc') as [[S2 _]|(_ & c2 & -> & Vc')]; [rewrite LV' in S2; discriminate|]. cbn [oc2g].
+        exact (reject_explicit_asset dom j o c1 Vc a0 a1 v0 c2 OA OV (UO _ _ _ NE OV) CH Vc').
+      * apply (out_reject T spent _ j o _ V NE (nth_set_eq _ _ _ _ NE) LV (LV' _)). intros dom c c' Vc Vc'.
         exact (reject_asset_explicit_conf dom j o c Vc a0 a1 comm c' OA CH OV Vc').
-    + apply (out_reject T spent _ j o _ V NE (nth_set_eq _ _ _ _ NE)). intros dom c c' Vc Vc'.
+    + apply (out_reject T spent _ j o _ V NE (nth_set_eq _ _ _ _ NE) LV (LV' _)). intros dom c c' Vc Vc'.
       exact (reject_asset_commit dom j o c Vc g g' c' OA (asset_eqb_conf _ _ CH) Vc').
   - (* TSwapValue *)
     apply out2_at_inv in AP as (NJK & x & y & NX & NY & KD). apply out2_at_inv in CH as (_ & x2 & y2 & NX2 & NY2 & CH).
     rewrite NX in NX2. rewrite NY in NY2. injection NX2 as <-. injection NY2 as <-.
     destruct (swap_nth (t_out T) j k (fun x y => set_value (o_value y) x) x y NJK NX NY) as [NS _].
     apply andb_true_iff in KD as [CX CY]. destruct (o_value x) as [| |cx] eqn:OVx; try discriminate. destruct (o_value y) as [| |cy] eqn:OVy; try discriminate.
-    apply (out_reject T spent _ j x _ V NX NS). intros dom c c' Vc Vc'.
+    apply (out_reject T spent _ j x _ V NX NS (skipped_conf x cx OVx) (skipped_conf (set_value (VConf cy) x) cy eq_refl)). intros dom c c' Vc Vc'.
     apply (reject_value_commit dom j x c Vc cx cy c' OVx); [|exact Vc']. apply value_eqb_conf. now apply negb_true_iff.
   - (* TSwapAsset *)
     apply out2_at_inv in AP as (NJK & x & y & NX & NY & KD). apply out2_at_inv in CH as (_ & x2 & y2 & NX2 & NY2 & CH).
     rewrite NX in NX2. rewrite NY in NY2. injection NX2 as <-. injection NY2 as <-.
     destruct (swap_nth (t_out T) j k (fun x y => set_asset (o_asset y) x) x y NJK NX NY) as [NS _].
+    apply andb_true_iff in KD as [LV KD]. apply andb_true_iff in LV as [LX _]. unfold live in LX. apply negb_true_iff in LX.
     destruct (o_asset x) as [| |gx] eqn:OAx; try discriminate. destruct (o_asset y) as [| |gy] eqn:OAy; try discriminate.
-    apply (out_reject T spent _ j x _ V NX NS). intros dom c c' Vc Vc'.
+    apply (out_reject T spent _ j x _ V NX NS LX); [rewrite (skipped_same x (set_asset (AConf gy) x) eq_refl eq_refl); exact LX|]. intros dom c c' Vc Vc'.
     apply (reject_asset_commit dom j x c Vc gx gy c' OAx); [|exact Vc']. apply asset_eqb_conf. now apply negb_true_iff.
   - (* TRemoveRp *)
     apply out_at_inv in AP as (o & NE & KD). rewrite (upd_some _ _ _ _ NE). apply andb_true_iff in KD as [CV _].
     destruct (o_value o) as [| |comm] eqn:OV; try discriminate.
-    apply (out_reject T spent _ j o _ V NE (nth_set_eq _ _ _ _ NE)). intros dom c c' Vc Vc'. exact (reject_remove_rp dom j o comm c' OV Vc').
+    apply (out_reject T spent _ j o _ V NE (nth_set_eq _ _ _ _ NE) (skipped_conf o comm OV) (skipped_conf (set_rp None o) comm OV)). intros dom c c' Vc Vc'. exact (reject_remove_rp dom j o comm c' OV Vc').
   - (* TSwapRp *)
     apply out2_at_inv in AP as (NJK & x & y & NX & NY & KD). apply out2_at_inv in CH as (_ & x2 & y2 & NX2 & NY2 & CH).
     rewrite NX in NX2. rewrite NY in NY2. injection NX2 as <-. injection NY2 as <-.
     destruct (swap_nth (t_out T) j k (fun x y => set_rp (o_rp y) x) x y NJK NX NY) as [NS _].
     apply andb_true_iff in KD as [KD AK]. apply andb_true_iff in KD as [CX CY]. apply negb_true_iff in CH.
-    apply (out_reject_gen T spent _ j _ V NS). intros dom ACC c' Vc'.
-    destruct (ACC j x NX) as (cx & Vx). destruct (ACC k y NY) as (cy & Vy).
+    apply (out_reject_gen T spent _ j _ V NS). intros dom ACC c0' Sc'.
+    destruct (ACC k y NY) as (cy0 & Sy).
+    assert (SKy : skipped y = false) by (destruct (o_value y) as [| |cy1] eqn:E; try discriminate; exact (skipped_conf y cy1 E)).
+    assert (SKx : skipped (set_rp (o_rp y) x) = false) by (destruct (o_value x) as [| |cx1] eqn:E; try discriminate; exact (skipped_conf (set_rp (o_rp y) x) cx1 E)).
+    destruct (step_inv _ _ _ _ Sy) as [[S1 _]|(_ & cy & _ & Vy)]; [congruence|].
+    destruct (step_inv _ _ _ _ Sc') as [[S2 _]|(_ & c' & _ & Vc')]; [congruence|].
     exact (reject_swap_rp dom j x k y cy c' Vy CX CY AK CH Vc').
   - (* TCorruptRp *)
     apply out_at_inv in AP as (o & NE & KD). rewrite (upd_some _ _ _ _ NE). apply andb_true_iff in KD as [CV _].
     destruct (o_value o) as [| |comm] eqn:OV; try discriminate.
-    apply (out_reject T spent _ j o _ V NE (nth_set_eq _ _ _ _ NE)). intros dom c c' Vc Vc'. exact (reject_corrupt_rp dom j o comm c' OV Vc').
+    apply (out_reject T spent _ j o _ V NE (nth_set_eq _ _ _ _ NE) (skipped_conf o comm OV) (skipped_conf (set_rp _ o) comm OV)). intros dom c c' Vc Vc'. exact (reject_corrupt_rp dom j o comm c' OV Vc').
   - (* TRemoveSp *)
-    apply out_at_inv in AP as (o & NE & KD). rewrite (upd_some _ _ _ _ NE). destruct (o_asset o) as [| |g] eqn:OA; try discriminate.
-    apply (out_reject T spent _ j o _ V NE (nth_set_eq _ _ _ _ NE)). intros dom c c' Vc Vc'. exact (reject_remove_sp dom j o g c' OA Vc').
+    apply out_at_inv in AP as (o & NE & KD). rewrite (upd_some _ _ _ _ NE). apply andb_true_iff in KD as [LV KD]. unfold live in LV. apply negb_true_iff in LV.
+    destruct (o_asset o) as [| |g] eqn:OA; try discriminate.
+    apply (out_reject T spent _ j o _ V NE (nth_set_eq _ _ _ _ NE) LV); [rewrite (skipped_same o (set_sp None o) eq_refl eq_refl); exact LV|].
+    intros dom c c' Vc Vc'. exact (reject_remove_sp dom j o g c' OA Vc').
   - (* TSwapSp *)
     apply out2_at_inv in AP as (NJK & x & y & NX & NY & KD). apply out2_at_inv in CH as (_ & x2 & y2 & NX2 & NY2 & CH).
     rewrite NX in NX2. rewrite NY in NY2. injection NX2 as <-. injection NY2 as <-.
     destruct (swap_nth (t_out T) j k (fun x y => set_sp (o_sp y) x) x y NJK NX NY) as [NS _].
+    apply andb_true_iff in KD as [LV KD]. apply andb_true_iff in LV as [LX LY]. unfold live in LX, LY. apply negb_true_iff in LX, LY.
     destruct (o_asset x) as [| |gx] eqn:OAx; try discriminate. destruct (o_asset y) as [| |gy] eqn:OAy; try discriminate.
-    apply negb_true_iff in CH. apply (out_reject_gen T spent _ j _ V NS). intros dom ACC c' Vc'.
-    destruct (ACC j x NX) as (cx & Vx). destruct (ACC k y NY) as (cy & Vy).
+    apply negb_true_iff in CH. apply (out_reject_gen T spent _ j _ V NS). intros dom ACC c0' Sc'.
+    destruct (ACC k y NY) as (cy0 & Sy).
+    assert (SKx : skipped (set_sp (o_sp y) x) = false) by (rewrite (skipped_same x (set_sp (o_sp y) x) eq_refl eq_refl); exact LX).
+    destruct (step_inv _ _ _ _ Sy) as [[S1 _]|(_ & cy & _ & Vy)]; [congruence|].
+    destruct (step_inv _ _ _ _ Sc') as [[S2 _]|(_ & c' & _ & Vc')]; [congruence|].
     exact (reject_swap_sp dom j x k y cy c' gx gy Vy OAx OAy (asset_eqb_conf _ _ CH) Vc').
   - (* TCorruptSp *)
-    apply out_at_inv in AP as (o & NE & KD). rewrite (upd_some _ _ _ _ NE). destruct (o_asset o) as [| |g] eqn:OA; try discriminate.
-    apply (out_reject T spent _ j o _ V NE (nth_set_eq _ _ _ _ NE)). intros dom c c' Vc Vc'. exact (reject_corrupt_sp dom j o g c' OA Vc').
+    apply out_at_inv in AP as (o & NE & KD). rewrite (upd_some _ _ _ _ NE). apply andb_true_iff in KD as [LV KD]. unfold live in LV. apply negb_true_iff in LV.
+    destruct (o_asset o) as [| |g] eqn:OA; try discriminate.
+    apply (out_reject T spent _ j o _ V NE (nth_set_eq _ _ _ _ NE) LV); [rewrite (skipped_same o (set_sp _ o) eq_refl eq_refl); exact LV|].
+    intros dom c c' Vc Vc'. exact (reject_corrupt_sp dom j o g c' OA Vc').
   - (* TScript *)
     apply out_at_inv in AP as (o & NE & KD). apply out_at_inv in CH as (o2 & NE2 & CH). rewrite NE in NE2. injection NE2 as <-.
     rewrite (upd_some _ _ _ _ NE). destruct (o_value o) as [| |comm] eqn:OV; try discriminate.
-    apply (out_reject T spent _ j o _ V NE (nth_set_eq _ _ _ _ NE)). intros dom c c' Vc Vc'.
+    apply (out_reject T spent _ j o _ V NE (nth_set_eq _ _ _ _ NE) (skipped_conf o comm OV) (skipped_conf (set_script s o) comm OV)). intros dom c c' Vc Vc'.
     apply (reject_script dom j o c Vc comm s c' OV); [|exact Vc']. apply negb_true_iff in CH. intro E. rewrite E, bytes_eqb_refl in CH. discriminate.
   - (* TIssuance *)
     destruct (nth_error (t_in T) i) as [inp|] eqn:NI; [|discriminate]. apply andb_true_iff in AP as [AP U]. apply andb_true_iff in AP as [EX EV].
